@@ -78,8 +78,8 @@ def run(ck, tier, seed):
     # 2. the real server under simultaneous requests, race detector on
     work = vf.scratch("verif-c08-")
     out = os.path.join(work, "iso")
-    env = {"VERIF_OUT": out, "VERIF_SEED": str(seed), "VERIF_ISO_SESSIONS": "4" if quick else "16",
-           "VERIF_ISO_ROUNDS": "40" if quick else "120", "VERIF_ISO_WIDTH": "8" if quick else "12"}
+    env = {"VERIF_OUT": out, "VERIF_SEED": str(seed), "VERIF_ISO_SESSIONS": "4" if quick else "12",
+           "VERIF_ISO_ROUNDS": "40" if quick else "80", "VERIF_ISO_WIDTH": "8" if quick else "10"}
     rc, txt = vf.go_test("cmd/glyph", ["harness_test.go", "iso_test.go"], run="TestVerifIsoRun$", race=True, env=env, timeout=3000)
     seen = set()
     for sig, block in race_signatures(txt):
@@ -107,7 +107,31 @@ def run(ck, tier, seed):
         for sig, e in bad.items():
             ck.mismatch(sig, {"request": {k: e[k] for k in ("route", "x", "y")}, "answer": e.get("raw")}, replay={"kind": "iso-run", "env": env})
         maxdepth = meta[key] if meta[key] < 4000 else 10 ** 9      # 4000: the search's ceiling, i.e. no limit in this mode
-        v = vf.validate_trace("isolation", "ReqIsolationTrace", {"MaxDepth": maxdepth}, path, timeout=2400)
+        # one TLC per session, in parallel: the search over placements of linearization points is per session anyway
+        sessions, cur = [], []
+        for e in lines:
+            if e["e"] == "reset" and cur:
+                sessions.append(cur)
+                cur = []
+            cur.append(e)
+        if cur:
+            sessions.append(cur)
+        offsets, off = [], 0
+        for sess in sessions:
+            offsets.append(off)
+            off += len(sess)
+
+        def one(i):
+            sp = "%s.s%d.ndjson" % (path, i)
+            vf.write_ndjson(sp, sessions[i])
+            return vf.validate_trace("isolation", "ReqIsolationTrace", {"MaxDepth": maxdepth}, sp, timeout=2400, heap="3g")
+        from concurrent.futures import ThreadPoolExecutor
+        with ThreadPoolExecutor(max_workers=6) as ex:
+            results = list(ex.map(one, range(len(sessions))))
+        bad_i = next((i for i, r in enumerate(results) if not r["accepted"]), None)
+        v = {"accepted": bad_i is None, "states": sum(r["states"] for r in results),
+             "reject_at": (offsets[bad_i] + results[bad_i]["reject_at"]) if bad_i is not None and results[bad_i]["reject_at"] else None,
+             "violation": results[bad_i]["violation"] if bad_i is not None else None}
         nsess = sum(1 for e in lines if e["e"] == "reset")
         ck.cov["traces_validated_against_impl"] += nsess
         ck.cov["models"].append({"name": "history-" + mode, "mode": "trace-validation", "sessions": nsess, "requests": nreq, "events": len(lines),
